@@ -25,19 +25,22 @@ theorem parse_root_single {g : G} {fuel : Nat} {r : RuleId} {inp : List Char} {p
   | oof => simp at h
 
 theorem firstBadEscape_none {ctx : Ctx} {ps : List Pair} (h : firstBadEscape ctx ps = none) :
-    ∀ q ∈ flatList ps, badEscape ctx q = false := by
+    ∀ q ∈ flatList ps, q.rule = R.NormalStringValue → scanEscapes ctx none (stringCharacters q) = none := by
   unfold firstBadEscape at h
-  simp only [Option.map_eq_none_iff] at h
-  intro q hq
-  have := List.find?_eq_none.mp h q hq
-  simpa using this
+  rw [List.findSome?_eq_none_iff] at h
+  intro q hq hr
+  have := h q hq
+  rw [if_pos hr] at this
+  cases hs : scanEscapes ctx none (stringCharacters q) with
+  | none => rfl
+  | some x => rw [hs] at this; cases this
 
 /-- the root pair of a validated parse is `Good` -/
 theorem good_of_parse {fuel : Nat} {r : RuleId} {inp : List Char} {p : Pair}
     (h : Peg.parse gList fuel r inp = .pairs [p]) (hesc : firstBadEscape (Ctx.spec inp) [p] = none) : Good inp p := by
   refine ⟨parse_deepOk gList fuel r inp [p] h p (List.mem_singleton.mpr rfl),
-    parse_wit gList fuel r inp [p] h p (List.mem_singleton.mpr rfl), fun q hq => ?_⟩
-  refine firstBadEscape_none hesc q ?_
+    parse_wit gList fuel r inp [p] h p (List.mem_singleton.mpr rfl), fun q hq hr => ?_⟩
+  refine firstBadEscape_none hesc q ?_ hr
   simp only [flatList, List.append_nil]
   exact hq
 
